@@ -15,6 +15,9 @@ pub const TOK_FRAGMENTS: &[&str] = &[
     "some long text of more than sixteen bytes, and then some more", "&CounterClockwiseContourIntegral;", "&CounterClockwiseContourIntegra",
     // non-ASCII letters with a Unicode (not ASCII) lower-case mapping: names are ASCII-lowercased only
     "É", "\u{212A}", "İ", "Σ", "<!DOCTYPE hÉ>", "<!doctype htm\u{212A}>", "<É", "<aÉ b=c>", "<a É=Ü>", "</aÉ>", "<TITLÉ>", "</TITLÉ>", "<sCRİPT>",
+    "&#x80;", "&#x81;", "&#x82;", "&#x83;", "&#x84;", "&#x85;", "&#x86;", "&#x87;", "&#x88;", "&#x89;", "&#x8A;", "&#x8B;", "&#x8C;", "&#x8D;",
+    "&#x8E;", "&#x8F;", "&#x90;", "&#x91;", "&#x92;", "&#x93;", "&#x94;", "&#x95;", "&#x96;", "&#x97;", "&#x98;", "&#153;", "&#x9A;", "&#x9B;", "&#x9C;",
+    "&#x9D;", "&#x9E;", "&#159;",
     "&#x100000041;", "&#4294967361;", "&#x0000000041;", "&#99999999999;", "</title/>", "</script/>", "</style/>", "</textarea/>", "</xmp/ x>", "</title x=y>", "</script\t>", "</TITLE/>", "<!x>", "<!-", "<!->", "<!--->", "<!---->", "<!-- <!-- -->", "--!", "<![", "<![cdata[", "]]", "PUBLIC", "system",
 ];
 
@@ -26,9 +29,22 @@ pub fn tok_soup(s: &mut Src, max_frags: usize) -> String {
     for _ in 0..n {
         if s.chance(8) {
             // a run long enough for the 16-byte SIMD stride, with a special character somewhere
-            let k = s.range(14, 70);
-            for _ in 0..k {
-                out.push(*s.pick(&['a', 'b', ' ', 'c', '\n', 'é', 'd', 'e']));
+            let k = if s.chance(16) {
+                // a buffer-sized run: plain bytes up to just before 2^k, then multi-byte characters
+                // straddling the boundary
+                *s.pick(&[1021usize, 1022, 1023, 4092, 4093, 4094, 4095, 4096, 8189, 8190, 8191, 65533, 65534])
+            } else {
+                s.range(14, 70)
+            };
+            if k > 100 {
+                for _ in 0..k {
+                    out.push('a');
+                }
+                out.push_str(*s.pick(&["é", "中", "😁", "éé", "中中", "a中"]));
+            } else {
+                for _ in 0..k {
+                    out.push(*s.pick(&['a', 'b', ' ', 'c', '\n', 'é', 'd', 'e']));
+                }
             }
             out.push(*s.pick(&['<', '&', '\r', '\0', 'x']));
         } else if s.chance(4) {
@@ -303,8 +319,46 @@ pub fn gen_html(s: &mut Src, max_tokens: usize) -> String {
         out.push_str(&gen_doctype(s));
     }
     for _ in 0..n {
-        match s.weighted(&[40, 22, 16, 4, 2, 2, 3, 3, 1, 1, 1]) {
+        match s.weighted(&[40, 22, 16, 4, 2, 2, 3, 3, 1, 1, 1, 1]) {
             8 => gen_select_block(s, &mut out),
+            11 => {
+                // the Noah's Ark clause: three to six formatting start tags with the same name whose
+                // attribute lists are the same set written differently (order, case, a repeated
+                // attribute) or differ in one value, then something that reconstructs them
+                let f = *s.pick(FORMATTING);
+                let pool: &[&str] = &["x", "class=c", "id=a", "title='t u'", "y=1"];
+                let k = s.below(4);
+                let set: Vec<&str> = (0..k).map(|i| pool[(i + s.below(2)) % pool.len()]).collect();
+                out.push_str(*s.pick(&["", "<div>", "<p>", "<table><td>"]));
+                for _ in 0..s.range(3, 6) {
+                    let mut a: Vec<String> = set.iter().map(|x| x.to_string()).collect();
+                    if a.len() > 1 && s.bool() {
+                        let i = s.below(a.len());
+                        let j = s.below(a.len());
+                        a.swap(i, j);
+                    }
+                    if !a.is_empty() && s.chance(60) {
+                        let d = a[s.below(a.len())].clone();
+                        a.push(d); // repeated attribute (dropped by the tokenizer, flag set)
+                    }
+                    if !a.is_empty() && s.chance(40) {
+                        let i = s.below(a.len());
+                        a[i] = a[i].to_ascii_uppercase();
+                    }
+                    if !a.is_empty() && s.chance(30) {
+                        let i = s.below(a.len());
+                        a[i] = format!("{}z", a[i]); // a different value / name: not the same tag
+                    }
+                    out.push('<');
+                    out.push_str(f);
+                    for x in &a {
+                        out.push(' ');
+                        out.push_str(x);
+                    }
+                    out.push('>');
+                }
+                out.push_str(*s.pick(&["</div>y", "<p>z", "</p>w", "</td>v", "x", "<div>u</div>"]));
+            },
             10 => {
                 // the stack of template insertion modes: templates (nested) with mode-switching
                 // start tags inside, closed or not, then table-structure / body content
